@@ -9,7 +9,7 @@ CONSTANTS RecU,        \* record universe (ids)
           MaxC,        \* max records per zone version
           Kinds,       \* subset of {"axfr","ixfr1","ixfr2","fallback","uptodate"}
           MaxMsgs,     \* max messages per packaging
-          FaultKinds,  \* subset of {"none","drop","dup","swap","trunc","hdr","wrongq"}
+          FaultKinds,  \* subset of {"none","drop","dup","swap","trunc","hdr","wrongq","csoa"}
           LaterQ       \* subset of BOOLEAN: later messages repeat the question?
 
 VARIABLES sc,      \* scenario: [kind, req, hist] (sender side), receiver starts at hist[1]
@@ -77,6 +77,9 @@ FaultCorruptHeader == "hdr" \in FaultKinds /\ \E i \in 1..Len(msgs) : \E f \in H
 FaultWrongQuestion == "wrongq" \in FaultKinds /\ \E i \in 1..Len(msgs) : \E w \in {"qname", "qtype"} :
                     msgs[i].qd # <<>> /\ Go(<<"wrongq", i, w>>, WrongQAt(msgs, i, w))
 
+FaultCorruptSoa == "csoa" \in FaultKinds /\ \E i \in 1..Len(msgs) : \E j \in 1..Len(msgs[i].an) :
+                    IsSoa(msgs[i].an[j]) /\ Go(<<"csoa", i, j>>, CorruptSoaAt(msgs, i, j))
+
 DeliverNext ==
   /\ phase = "run"
   /\ pos <= Len(msgs) /\ ~rcv.stop /\ ~rcv.ip.fin
@@ -95,12 +98,12 @@ Close ==
   /\ UNCHANGED <<sc, fault, msgs, pos, steps>>
 
 Next == NoFault \/ FaultDrop \/ FaultDup \/ FaultSwap \/ FaultTruncate
-        \/ FaultCorruptHeader \/ FaultWrongQuestion \/ DeliverNext \/ Close
+        \/ FaultCorruptHeader \/ FaultWrongQuestion \/ FaultCorruptSoa \/ DeliverNext \/ Close
 Spec == Init /\ [][Next]_vars
 
 \* generator: scenarios and faults only
 GenNext == NoFault \/ FaultDrop \/ FaultDup \/ FaultSwap \/ FaultTruncate
-           \/ FaultCorruptHeader \/ FaultWrongQuestion
+           \/ FaultCorruptHeader \/ FaultWrongQuestion \/ FaultCorruptSoa
 GenSpec == Init /\ [][GenNext]_vars
 
 --------------------------------------------------------------------------
